@@ -47,7 +47,7 @@ class St:
 
 class Tr:
     __slots__ = ('i', 'src', 'tgt', 'event', 'prio', 'guard', 'sends', 'pre', 'post', 'inv', 'bump',
-                 'tg_after', 'tg_idle', 'tobs', 'gform', 'tinv_idle', 'noact', 'ci')
+                 'tg_after', 'tg_idle', 'tobs', 'gform', 'tinv_idle', 'noact', 'ci', 'tpost_after')
 
     def __init__(self, i, src, tgt, event, prio, guard):
         self.i = i
@@ -67,12 +67,14 @@ class Tr:
         self.tobs = False
         self.gform = False      # guard written in the event-free form P.g(i)
         self.tinv_idle = None   # argument of idle() in a transition invariant (set by C13 only)
+        self.tpost_after = None  # argument of after() in a transition postcondition (set by C13 only)
         self.noact = False      # the transition has no action at all (C08 only; it is then identified by its guard)
 
     def as_tuple(self):
         return (self.i, self.src, self.tgt, self.event, self.prio, self.guard, tuple(self.sends),
                 tuple(self.pre), tuple(self.post), tuple(self.inv), self.bump, self.tg_after, self.tg_idle, self.tobs, self.gform) + \
             ((self.tinv_idle,) if self.tinv_idle is not None else ()) + (('noact',) if self.noact else ()) + \
+            ((('tpost_after', self.tpost_after),) if self.tpost_after is not None else ()) + \
             ((('dup', self.ci),) if self.ci != self.i else ())
 
 
@@ -538,6 +540,10 @@ def guard_code(t):
     return 'P.guard(%d, event)' % t.ci
 
 
+def ttpost_code(i, d):
+    return 'P.ttpost(%d, after(%r), time)' % (i, d)
+
+
 def ttinv_code(i, d):
     return 'P.ttinv(%d, idle(%r), time)' % (i, d)
 
@@ -615,6 +621,8 @@ def _trans_obj(model, t, with_old=True):
     o.invariants.extend(cond_code(j, 'inv', True, with_old) for j in t.inv)
     if t.tinv_idle is not None:
         o.invariants.append(ttinv_code(t.i, t.tinv_idle))
+    if t.tpost_after is not None:
+        o.postconditions.append(ttpost_code(t.i, t.tpost_after))
     return o
 
 
@@ -655,8 +663,11 @@ def to_dict(sp, order=None, name='gen'):
         if not is_t:
             out += [{'always': tinv_code(j, a, i)} for j, a, i in o.tinv]
             out += [{'after': tpost_code(j, a)} for j, a in o.tpost]
-        elif o.tinv_idle is not None:
-            out += [{'always': ttinv_code(o.i, o.tinv_idle)}]
+        else:
+            if o.tinv_idle is not None:
+                out += [{'always': ttinv_code(o.i, o.tinv_idle)}]
+            if o.tpost_after is not None:
+                out += [{'after': ttpost_code(o.i, o.tpost_after)}]
         return out
 
     def st(n):
